@@ -759,8 +759,24 @@ func c20Expiry(rep *verifutil.Report, done chan struct{}) {
 		return n
 	}
 	deadline := time.Now().Add(150 * time.Second)
+	stable, last := 0, len(old)
 	for left(old) > 0 && time.Now().Before(deadline) {
 		time.Sleep(time.Second)
+		// a collector pass visits the whole registry in one go: once it has removed SOME of the
+		// equally old entries and the count then stands still, the pass is over
+		if n := left(old); n < len(old) && n > 0 {
+			if n == last {
+				stable++
+			} else {
+				stable, last = 0, n
+			}
+			if stable >= 5 {
+				rep.Eval(1)
+				rep.Violation("growth:abandoned-pulls-not-collected", fmt.Sprintf("[tracker level, expiry] a pass of the collector removed %d of %d registry entries that are all older than 5 minutes and left the other %d (count unchanged for 5 s after the first removal)",
+					len(old)-n, len(old), n), nil)
+				return
+			}
+		}
 	}
 	rep.Eval(1)
 	if n := left(old); n > 0 {
